@@ -67,3 +67,12 @@ def describe(v, tier):
                      "an `unknown` solver answer leaves that (metric, axiom, n) undecided; it is listed under inconclusive_sites and never counted as success"]
     v.outside = ["vector lengths beyond the bound", "magnitude of rounding error (only NaN/inf production is checked bit-faithfully, by replay)"]
     v.stubs = ["numpy -> symx.symnp", "numba.njit -> identity", "math -> symx.symmath"]
+
+
+def conformance(v, tier, seed):
+    """the metric bodies whose axioms are decided here, executed concretely through the twin inside model runs on the
+    repository's data, against the real njit code"""
+    from . import conform
+    names = ["canberra", "soergel", "hellinger", "matusita", "lorentzian", "jensen_shannon", "kullback_leibler",
+             "bhattacharyya", "chord", "cosine", "hassanat", "gower"]
+    return conform.gate(v, [("sup", n) for n in names])
